@@ -212,4 +212,18 @@ META = {
                 "quantised classifier on the trainer's tag features' is established differentially (oracle on the trained models), not as one theorem.",
         "technique": "Lean 4 proof (fold invariants over the mirrored bookkeeping) + hook-based differential correspondence (byte-identical assembled models)",
     },
+    "C19": {
+        "text": "Lean theorems: replacing the dictionary changes the specified score of every boundary by exactly the new entries' minus "
+                "the old entries' weights over all occurrences, for every model and text (C19_replace_delta; with C01 this is the "
+                "predictor's score), and changes no other field (C19_replace_frame); the weights column (decimal i32s joined by single "
+                "spaces, as the tool writes it) parses back to the same list for every non-empty list of 32-bit values incl. negatives "
+                "(C19_weights_roundtrip, decimal printer/parser modelled); records whose weight count differs from word length + 1 are "
+                "rejected, all others accepted (C19_record_check); loading the unmodified dump reproduces the dictionary and hence the "
+                "model (C19_dump_replace, given the CSV three-column contract). Tied to /repo by replace_dictionary cases with a "
+                "score-delta oracle, by comparing the weights column written by the REAL manipulate_model with the model's, and by the "
+                "end-to-end CLI dump->replace run (byte-identical model files; malformed record rejected).",
+        "design_ref": "DESIGN.md §6 C19",
+        "note": _common_note + "PARTIAL: the csv/serde quoting layer and zstd are external contracts, exercised end-to-end by the CLI step but not modelled.",
+        "technique": "Lean 4 proof (decimal round trip, split/join, spec algebra) + differential correspondence + end-to-end CLI run",
+    },
 }
